@@ -77,7 +77,9 @@ def Scope.resolve (sc : Scope) (name : String) : Option String :=
 def isIntLex (s : String) : Option Int := s.toInt?
 
 /-- a typed value `{"$": v, "type": T}` -/
-def typedValue (sc : Scope) (v : JVal) (ty : String) : Option AVal :=
+def typedValue (sc : Scope) (v0 : JVal) (ty : String) : Option AVal :=
+  -- a string that also carries its float reading is a plain string for every datatype but xsd:double
+  let v : JVal := match v0 with | .strf s _ => .str s | x => x
   match sc.resolve ty with
   | none => none
   | some tu =>
@@ -90,7 +92,7 @@ def typedValue (sc : Scope) (v : JVal) (ty : String) : Option AVal :=
        | .str s => (match isIntLex s with | some n => some (.int n) | none => some (.lit s (some tu) none))
        | _ => none)
     else if tu == xsdNs ++ "double" then
-      (match v with
+      (match v0 with
        | .float f => some (.float f.repr)
        | .int n => some (.float (toString n ++ ".0"))
        | .strf _ f => some (.float f.repr)            -- lexical double with the value supplied by the harness (A-LEX)
@@ -130,7 +132,11 @@ def readValue (sc : Scope) (j : JVal) : Option AVal :=
     | none => none
     | some v =>
       match (JVal.obj kvs).get? "lang", (JVal.obj kvs).get? "type" with
-      | some (.str l), _ => (match v with | .str s => some (.lit s (some (provNs ++ "InternationalizedString")) (some l)) | _ => none)
+      | some (.str l), _ =>
+        (match v with
+         | .str s => some (.lit s (some (provNs ++ "InternationalizedString")) (some l))
+         | .strf s _ => some (.lit s (some (provNs ++ "InternationalizedString")) (some l))
+         | _ => none)
       | _, some (.str ty) => typedValue sc v ty
       | _, _ => none
   | _ => none
